@@ -4,6 +4,9 @@
   `Scico/Proofs/DriverSpec.lean`).
 -/
 import Scico.Proofs.DriverTrace
+import Scico.Proofs.DriverSeq
+import Scico.Proofs.DriverCtl
+import Scico.Proofs.DriverMore
 
 namespace Scico.Props.C15
 open Scico.Driver Scico.Driver.Spec
@@ -79,6 +82,120 @@ example :
       specElapsed c h (some 7) true 12 = none ∧
       ((Timer.init c.init c.dflt c.all).run h).elapsed (some 1) true 12 = some 3 := by
   refine ⟨⟨by decide, by decide⟩, by decide, by decide, by decide, by decide, by decide, by decide⟩
+
+
+/-! ## `ContextTimer`, `Timer.__str__`, `history(transpose=True)`, statistics columns -/
+
+/-- **`with ContextTimer(timer, label)`** (action `StartStop`; the label — `None` = default label —
+    is not the `all` label; a start time of the label, if it is running, is not in the future):
+    never raises; after the block the label is *stopped* and its total reading, at any later time,
+    is its reading at entry plus the duration of the block — also when it was already running
+    (the exit stops it: the context manager is not re-entrant, which is why it cannot replace the
+    `stop(); callback(); start()` bracket of `solve`). -/
+theorem C15_context_timer_startstop {L : Type} [DecidableEq L] (T : Timer L) (label : Option L)
+    (t1 t2 : Nat) (h12 : t1 ≤ t2) (hall : ctxLabel T label ≠ T.all)
+    (hwf : ∀ e, T.store.get (ctxLabel T label) = some e → ∀ s, e.t0 = some s → s ≤ t1) :
+    let T1 := (ctxEnter T label .startStop t1).1
+    let r := ctxExit T1 label .startStop t2
+    r.2 = true ∧
+      ∀ now, r.1.elapsed (some (ctxLabel T label)) true now =
+          some (((T.elapsed (some (ctxLabel T label)) true t1).getD 0) + (t2 - t1)) ∧
+        r.1.elapsed (some (ctxLabel T label)) false now = some 0 :=
+  ctx_startStop T label t1 t2 h12 hall hwf
+
+/-- **`with ContextTimer(timer, label, action="StopStart")`**: on an existing label the duration
+    of the block is excluded and the label runs afterwards (whether or not it ran before); on a
+    label that does not exist — e.g. the default label of a fresh `Timer()` — entry raises
+    `KeyError` and nothing changes. -/
+theorem C15_context_timer_stopstart {L : Type} [DecidableEq L] (T : Timer L) (label : Option L)
+    (t1 t2 : Nat) (hall : ctxLabel T label ≠ T.all) :
+    (∀ e, T.store.get (ctxLabel T label) = some e → (∀ s, e.t0 = some s → s ≤ t1) →
+      let r1 := ctxEnter T label .stopStart t1
+      let r := ctxExit r1.1 label .stopStart t2
+      r1.2 = true ∧ r.2 = true ∧
+        ∀ now, t2 ≤ now → r.1.elapsed (some (ctxLabel T label)) true now =
+            some (((T.elapsed (some (ctxLabel T label)) true t1).getD 0) + (now - t2)) ∧
+          r.1.elapsed (some (ctxLabel T label)) false now = some (now - t2)) ∧
+    (T.store.get (ctxLabel T label) = none → ctxEnter T label .stopStart t1 = (T, false)) :=
+  ⟨fun e hex hwf => ctx_stopStart T label t1 t2 hall e hex hwf,
+   fun hex => ctx_stopStart_keyerror T label t1 hall hex⟩
+
+-- non-vacuity: a label that is already running; the block lasts 5 ticks
+example :
+    let T : Timer Nat := (Timer.init (.one 3) 0 9).start (.one 3) 2
+    ctxLabel T (some 3) ≠ T.all ∧ T.elapsed (some 3) true 4 = some 2 ∧
+      ((ctxExit (ctxEnter T (some 3) .startStop 4).1 (some 3) .startStop 9).1.elapsed (some 3) true 20 = some 7) ∧
+      ((ctxExit (ctxEnter T (some 3) .stopStart 4).1 (some 3) .stopStart 9).1.elapsed (some 3) true 20 = some 13) ∧
+      (ctxEnter (Timer.init .none 0 9) none .stopStart 4).2 = false := by
+  decide
+
+/-- **The table `Timer.__str__` prints** (documented behaviour; the tree as it is raises
+    `TypeError` while any timer runs — finding `timer-str-running`): after any history on any
+    configuration with a non-decreasing clock the rows are those of the existing labels, each
+    once per key, in sorted order; `Accum.` + `Current` is the ideal stop-watch's total, `Current`
+    is the ideal stop-watch's `total=False` reading and reads `Stopped` iff the label's last event
+    is not a `start`. -/
+theorem C15_timer_str {L : Type} [DecidableEq L] (lt : L → L → Bool)
+    (htot : ∀ a b, lt a b = false → lt b a = false → a = b)
+    (htrans : ∀ a b c, lt a b = true → lt b c = true → lt a c = true) (hirr : ∀ a, lt a a = false)
+    (c : Cfg L) (h : List (Call L)) (now : Nat) (hm : Monotone h now) :
+    let rows := ((Timer.init c.init c.dflt c.all).run h).strRows lt now
+    (∀ l, l ∈ rows.map (·.label) ↔ known c h l = true) ∧
+      rows.length = ((Timer.init c.init c.dflt c.all).run h).store.keys.length ∧
+      SortedBy lt (rows.map (·.label)) ∧
+      ∀ r ∈ rows,
+        r.accum + r.current.getD 0 = specTotal (labelHistory c h r.label) now ∧
+        r.current = (trailingStarts (labelHistory c h r.label)).head?.map (fun ev => now - ev.1) ∧
+        r.current.getD 0 = specCurrent (labelHistory c h r.label) now := by
+  intro rows
+  refine ⟨fun l => strRows_complete lt c h now l, ?_, ?_, ?_⟩
+  · have := congrArg List.length (strRows_labels lt ((Timer.init c.init c.dflt c.all).run h) now)
+    rw [List.length_map, length_sortLabels] at this
+    exact this
+  · show SortedBy lt ((((Timer.init c.init c.dflt c.all).run h).strRows lt now).map (·.label))
+    rw [strRows_labels]
+    exact sorted_sortLabels lt htot htrans hirr _
+  · intro r hr
+    exact (strRows_spec lt c h now hm r hr).2
+
+-- non-vacuity: labels 1 (running since 6, 3 accumulated) and 2 (stopped, 1 accumulated), `<` on ℕ
+example :
+    let c : Cfg Nat := ⟨.none, 0, 9⟩
+    let h : List (Call Nat) := [⟨1, .start, .many [2, 1]⟩, ⟨2, .stop, .one 2⟩, ⟨4, .stop, .one 1⟩, ⟨6, .start, .one 1⟩]
+    Monotone h 10 ∧
+      ((Timer.init c.init c.dflt c.all).run h).strRows (fun a b => decide (a < b)) 10 =
+        [⟨1, 3, some 4⟩, ⟨2, 1, none⟩] := by
+  refine ⟨⟨by decide, by decide⟩, by decide⟩
+
+/-- **`history(transpose=True)`** of a non-empty history: one list per field of the first record,
+    each as long as the history, and entry `m` of list `n` is field `n` of record `m`
+    (the empty history is returned as it is: `historyTranspose [] = []`). -/
+theorem C15_history_transpose {β : Type} (r0 : List β) (rest : List (List β)) :
+    historyTranspose ([] : List (List β)) = [] ∧
+      (historyTranspose (r0 :: rest)).length = r0.length ∧
+      (∀ col ∈ historyTranspose (r0 :: rest), col.length = (r0 :: rest).length) ∧
+      ∀ (m n : Nat) (r : List β) (x : β), (r0 :: rest)[m]? = some r → r[n]? = some x → n < r0.length →
+        ((historyTranspose (r0 :: rest))[n]?.bind (·[m]?)) = some (some x) :=
+  ⟨rfl, historyTranspose_spec r0 rest⟩
+
+example : historyTranspose [[1, 2, 3], [4, 5, 6]] = [[some 1, some 4], [some 2, some 5], [some 3, some 6]] := by
+  decide
+
+/-- **Statistics columns**: for every optimiser class, sub-problem solver and objective flag the
+    column names are pairwise distinct and so are the attribute expressions (one value per column,
+    `namedtuple` accepts the names), the record starts with `Iter` (`itnum`) and `Time`
+    (`timer.elapsed()`), and the source of the generated statistics function reads exactly the
+    attribute expressions in column order.  (That these tables are the ones in the source is the
+    generated obligation `Scico.Generated.DriverFields.tables_ok`, re-checked on every run.) -/
+theorem C15_field_tables (c : OptClass) (sv : AdmmSolver) (obj : Bool) :
+    (fieldNames c sv obj).Nodup ∧ ((fieldSpecs c sv obj).map (·.attrib)).Nodup ∧
+      (fieldSpecs c sv obj).take 2 = [⟨"Iter", "%d", "itnum"⟩, ⟨"Time", "%8.2e", "timer.elapsed()"⟩] ∧
+      (fieldSpecs c sv obj).length = (fieldNames c sv obj).length := by
+  cases c <;> cases sv <;> cases obj <;> decide
+
+example : itstatFuncSource ((fieldSpecs .pgm .other true).map (·.attrib)) =
+    "def itstat_func(obj): return(obj.itnum, obj.timer.elapsed(), obj.objective(), obj.L, obj.norm_residual())" := by
+  decide
 
 /-! ## `solve()` -/
 
@@ -294,6 +411,72 @@ theorem C15_history (E : Env ω ρ ξ α) (calls : List (Int × Option (Callback
         d.rows.map (·.iter) ++ (List.range (totalIters calls)).map (fun (k : Nat) => d.itnum + (k : Int)) :=
   ⟨(runSolves_numbering E calls d hr hok).1, (runSolves_numbering E calls d hr hok).2.1⟩
 
+/-- **Any number of calls ≡ one longer run.**  `solver.maxiter = m₀; solve(cb)` followed by any
+    list of "pause of `g` ticks; `solver.maxiter = m; solve(cb)`" ends in the same state, counter,
+    records (numbers, times, fields) and timer object as ONE `solve(cb)` with
+    `maxiter = m₀ + Σ m`; the clock differs by the pauses.  (`C15_resume` is the case of one later
+    call; here the list is arbitrary, zero-iteration calls included.) -/
+theorem C15_history_equiv (E : Env ω ρ ξ α) (cb : Option (Callback ω)) (d : Drv ω ρ L) (m0 : Nat)
+    (rest : List (Nat × Nat)) (hr : Ready d)
+    (hn : NoTrip E cb (d.setMaxiter ((m0 + seqIters rest : Nat) : Int))) :
+    let r := runSeq E cb d m0 rest
+    let s := solve E cb (d.setMaxiter ((m0 + seqIters rest : Nat) : Int))
+    s.2 = .ok ∧ r.world = s.1.world ∧ r.itnum = s.1.itnum ∧ r.rows = s.1.rows ∧ r.timer = s.1.timer ∧
+      r.clock = s.1.clock + seqPause rest := by
+  have h := noTrip_tripsB hn
+  simp only [setMaxiter_maxiter, Int.toNat_natCast, setMaxiter_nanstop, setMaxiter_world] at h
+  obtain ⟨a, b, c, e, f, g, _⟩ := solve_sequence E cb rest d m0 hr.labels hr.past h
+  exact ⟨a, b, c, e, f, g⟩
+
+/-- **Callbacks that assign `optimizer.itnum` / `optimizer.maxiter`** (`CallbackX`: arbitrary
+    `ctl`), for the tree as it is (`late = true`) and for the repaired `solve` (`late = false`).
+    Unconditionally — also when the NaN stop trips — the call has the same outcome and leaves the
+    same state, records (numbers included), callback log, clock and timer as with the plain
+    callback: the number of iterations and the numbering are fixed when the call starts and no
+    assignment by a callback can change them. -/
+theorem C15_callback_assigns (late : Bool) (E : Env ω ρ ξ α) (cbx : Option (CallbackX ω)) (d : Drv ω ρ L) :
+    (solveX late E cbx d).2 = (solve E (plainCb cbx) d).2 ∧
+      (solveX late E cbx d).1.world = (solve E (plainCb cbx) d).1.world ∧
+      (solveX late E cbx d).1.rows = (solve E (plainCb cbx) d).1.rows ∧
+      (solveX late E cbx d).1.cblog = (solve E (plainCb cbx) d).1.cblog ∧
+      (solveX late E cbx d).1.clock = (solve E (plainCb cbx) d).1.clock ∧
+      (solveX late E cbx d).1.timer = (solve E (plainCb cbx) d).1.timer := by
+  obtain ⟨ho, hs⟩ := solveX_sim late E cbx d
+  exact ⟨ho, hs.world, hs.rows, hs.cblog, hs.clock, hs.timer⟩
+
+/-- **…and what they do to the counter.**  After an uninterrupted call, `maxiter` is what the last
+    callback left (`ctlAt`: the loop assigns `itnum = i₀ + k` at the start of iteration `k`, so
+    only the *last* callback's assignment to `itnum` survives; assignments to `maxiter`
+    accumulate).  The counter is what the last callback left, plus one iff
+    * `late = true` (tree as it is): the `maxiter` *left by the callbacks* is positive — a callback
+      that sets `maxiter ≤ 0` leaves the counter one short, and the next call repeats an iteration
+      number (finding `callback-maxiter-counter`);
+    * `late = false` (repaired): the `maxiter` of the call was positive.
+    With callbacks that assign nothing both are `itnum + max(maxiter,0)`. -/
+theorem C15_callback_counter (late : Bool) (E : Env ω ρ ξ α) (cbx : Option (CallbackX ω)) (d : Drv ω ρ L)
+    (hr : Ready d) (hn : NoTrip E (plainCb cbx) d) :
+    let a := ctlAt E cbx d.world d.itnum d.maxiter d.maxiter.toNat
+    (solveX late E cbx d).1.maxiter = a.2 ∧
+      (solveX late E cbx d).1.itnum = (if (if late then a.2 else d.maxiter) > 0 then a.1 + 1 else a.1) ∧
+      ((∀ c, cbx = some c → c.neutral) →
+        (solveX late E cbx d).1.maxiter = d.maxiter ∧
+        (solveX late E cbx d).1.itnum = d.itnum + (d.maxiter.toNat : Int)) := by
+  intro a
+  obtain ⟨h1, h2⟩ := solveX_attrs late E cbx d hr.labels hr.past (noTrip_tripsB hn)
+  refine ⟨h1, h2, ?_⟩
+  intro hneu
+  have ha : ctlAt E cbx d.world d.itnum d.maxiter d.maxiter.toNat =
+      (if d.maxiter.toNat = 0 then d.itnum else d.itnum + ((d.maxiter.toNat : Int) - 1), d.maxiter) :=
+    ctlAt_neutral E cbx d.world d.itnum d.maxiter hneu _
+  rw [h1, h2, ha]
+  refine ⟨rfl, ?_⟩
+  simp only [ite_self]
+  by_cases hp : d.maxiter > 0
+  · have : d.maxiter.toNat ≠ 0 := by omega
+    simp only [hp, if_true, this, if_false]; omega
+  · have : d.maxiter.toNat = 0 := by omega
+    simp [hp, this]
+
 end Solve
 
 /-! ### non-vacuity: a concrete optimiser satisfying every hypothesis above -/
@@ -340,5 +523,18 @@ example : (runSolves exEnv [(2, some exCb), (0, none), (1, none)] exDrv).rows.ma
 example : tripsAt exEnv none 3 true 0 := by
   refine ⟨rfl, Var.block [[true], [false]], by simp [exEnv, afterStep, worldAt], ?_⟩
   exact ⟨[false], by simp, false, by simp, rfl⟩
+
+/-- a callback that asks for "no further iterations" by `optimizer.maxiter = 0` -/
+def exCbStop : CallbackX Nat := { run := id, ticks := fun _ => 1, ctl := fun _ i _ => (i, 0) }
+
+-- tree as it is: three iterations 2,3,4 are performed and recorded, but the counter ends at 4, so the
+-- next call would number its first iteration 4 again; repaired: 5
+example : (solveX true exEnv (some exCbStop) exDrv).1.rows.map (·.iter) = [2, 3, 4] ∧
+    (solveX true exEnv (some exCbStop) exDrv).1.itnum = 4 ∧
+    (solveX false exEnv (some exCbStop) exDrv).1.itnum = 5 := by decide
+-- four calls with pauses against one call with the total
+example : (runSeq exEnv (some exCb) exDrv 1 [(5, 0), (2, 2)]).rows.map (fun r => (r.iter, r.time, r.fields)) =
+    (solve exEnv (some exCb) (exDrv.setMaxiter 3)).1.rows.map (fun r => (r.iter, r.time, r.fields)) ∧
+    seqIters [(5, 0), (2, 2)] = 2 ∧ seqPause [(5, 0), (2, 2)] = 7 := by decide
 
 end Scico.Props.C15
